@@ -207,6 +207,17 @@ def feature_circuits():
         ["o1", "o3", "o2"], ["a", "b", "na", "nb", "o2", "o1", "o3"])
     add("no_outputs", ["a"], [("g", G.NOT, ("a",))], [])
     add("single_input_passthrough", ["a"], [], ["a"])
+    # circuits that went through copy.deepcopy / pickle (the library deep-copies circuits itself): every gate type
+    # object is then *equal to* but *not the same object as* the module constant
+    import copy
+    import pickle
+
+    mixed = build(["a", "b", "c"],
+                  [("n", G.NOT, ("a",)), ("i", G.IFF, ("b",)), ("lt", G.LT, ("n", "c")), ("ge", G.GEQ, ("i", "lt")), ("t", G.ALWAYS_TRUE, ()),
+                   ("x", G.XOR, ("ge", "t", "a")), ("ln", G.LNOT, ("x", "b")), ("o", G.NAND, ("ln", "lt"))], ["o", "x", "c"])
+    out.append(("deepcopied_mixed_types", copy.deepcopy(mixed)))
+    out.append(("pickled_mixed_types", pickle.loads(pickle.dumps(mixed))))
+    out.append(("deepcopied_bench_types", copy.deepcopy(build(["a", "b"], [("n", G.NOT, ("a",)), ("g", G.AND, ("n", "b")), ("o", G.OR, ("g", "a")), ("x", G.NXOR, ("o", "n"))], ["x", "g"]))))
     return out
 
 
